@@ -70,6 +70,14 @@ NoPrune == FALSE
 Programs5 == UNION {[1..n -> Alphabet2] : n \in 0..(MaxLen5 - 1)}       \* MaxLen5 = 0 switches the family off
 Fronts == {Insn("nop", "imp", N(0)), Insn("lda", "dir", Id(<<"a">>)), [k |-> "data", w |-> 2, es |-> <<N(7)>>, sid |-> "0"]}
 SilentDrop == FALSE
+(* a sixth family: constants defined in terms of constants further down (a chain needs one pass per link) next to statements
+   that ask whether, and as what, the head of the chain is defined: a loop that stops one pass early leaves `defined(a)' at 0 *)
+Const6(n, e) == [k |-> "const", name |-> n, e |-> e, sid |-> "0"]
+Alphabet6 == {Const6("a", Id(<<"b">>)), Const6("b", Id(<<"c">>)), Const6("c", N(1)),
+              [k |-> "data", w |-> 1, es |-> <<[k |-> "def", name |-> "a", path |-> <<"a">>]>>, sid |-> "0"],
+              [k |-> "data", w |-> 1, es |-> <<Id(<<"a">>)>>, sid |-> "0"], Insn("lda", "imm", Id(<<"b">>))}
+MaxLen6 == 4
+Programs6 == UNION {[1..n -> Alphabet6] : n \in 1..MaxLen6}
 Programs == UNION {[1..n -> Alphabet] : n \in 1..MaxLen}
 Programs2 == UNION {[1..n -> Alphabet2] : n \in 1..MaxLen2}
 Sid(p) == [i \in 1..Len(p) |-> [p[i] EXCEPT !.sid = ToString(i)]]
@@ -80,6 +88,7 @@ vars == <<prog, m>>
 
 InitProgs == {<<SetPc>> \o Sid(p) : p \in Programs} \cup {Prelude2 \o Sid(p) : p \in Programs2} \cup {<<SetPc3>> \o Sid(p) : p \in Programs3}
                   \cup {<<MacroM, SetPc>> \o Sid(p) : p \in Programs4}
+                  \cup {<<SetPc>> \o Sid(p) : p \in Programs6}
                   \cup (IF MaxLen5 = 0 THEN {} ELSE {<<[f EXCEPT !.sid = "front"]>> \o Prelude2 \o Sid(p) : f \in Fronts, p \in Programs5})
 Init == /\ prog \in InitProgs
         /\ m = MInit
